@@ -40,7 +40,7 @@ m = {
     ],
     "checks": checks,
     "not_applicable": na,
-    "notes": "Exit codes of ./check: 0 held, 1 VIOLATION (a verifier-rejected obligation, or a disagreement of a labelled bounded stand-in with the statement-level oracle that replays on the real crate; with replay file), 2 undecided (machinery: anchor lost, unsupported construct, rlimit; or a `sufficient`-only structural float contract that no longer verifies while the ulp-bound oracle finds no failing input) - exit 2 never prints VIOLATION. known_findings.json is the committed registry of genuine defects.",
+    "notes": "Exit codes of ./check: 0 held, 1 VIOLATION (a verifier-rejected obligation, or a disagreement of a labelled bounded stand-in with the statement-level oracle that replays on the real crate; with replay file), 2 undecided (machinery: anchor lost, unsupported construct, rlimit; or a `sufficient`-only structural float contract that no longer verifies while the ulp-bound oracle finds no failing input; or an obligation whose only failures are spliced loop invariants / proof hints, i.e. the proof script no longer fits the code while no contract clause failed, and the search on the real crate finds no failing input; or a trait impl that starts overriding a provided method outside the contracts) - exit 2 never prints VIOLATION. known_findings.json is the committed registry of genuine defects.",
 }
 json.dump(m, open(os.path.join(VERIF, "MANIFEST.json"), "w"), indent=1)
 print("MANIFEST.json:", len(checks), "checks,", len(na), "not applicable")
